@@ -32,7 +32,7 @@ def plan(tier, seed):
                       "primitive_monitors": False, "rounds": 1 if tier == "quick" else 6, "budget_s": 150})
     for j in range(3):
         specs.append({"name": f"dropped-index-generations-{j}", "kind": "generations", "schemes": _g.SCHEMES[j::3],
-                      "rounds": 1 if tier == "quick" else 8, "generations": 60, "budget_s": 120})
+                      "rounds": 1 if tier == "quick" else 8, "generations": 120, "budget_s": 120})
     for j in range(2 if tier == "quick" else 4):
         specs.append({"name": f"long-keywords-{j}", "kind": "long_keywords", "index": j * 4,
                       "budget_s": 12 if tier == "quick" else 200})
